@@ -848,3 +848,99 @@ Proof.
     cbn [shape_of handle_branch a_method a_id rtypes st0 rt_set rt_get]. rewrite Kd.
     rewrite (id_eqb_refl i Hv). unfold get_result_type. rewrite F. rewrite Em. reflexivity.
 Qed.
+
+(* ================= (iii) at the wire: what the handler of an unknown method is given ========== *)
+Lemma akeys_aset_mem {V} k (v : V) l : amem k l = true -> akeys (aset k v l) = akeys l.
+Proof.
+  unfold amem, akeys. induction l as [|[k' v'] l IH]; cbn [aget aset map fst]; [discriminate|].
+  destruct (str_eqb k k') eqn:E; cbn [map fst]; [reflexivity|]. intro H. rewrite IH by exact H. reflexivity.
+Qed.
+Lemma amem_aset {V} k k' (v : V) l : amem k (aset k' v l) = amem k l || str_eqb k k'.
+Proof.
+  unfold amem. destruct (str_eqb k k') eqn:E.
+  - apply str_eqb_eq in E. subst. rewrite aget_aset_eq. symmetry. apply orb_true_r.
+  - rewrite aget_aset_neq by exact E. rewrite orb_false_r. reflexivity.
+Qed.
+
+(* pygls' structure hook for the generic classes: the payload member goes through
+   _dict_to_object, every other member is passed on as it is *)
+Lemma generic_structure_ok c data pv o :
+  aget (payload_key c) data = Some pv -> dict_to_object pv = SOk o ->
+  forallb (fun k => mem_str k (required c ++ optional c)) (akeys data) = true ->
+  forallb (fun k => amem k data) (required c) = true ->
+  generic_structure c data =
+    SOk (map (fun k => field_or_null k (aset (payload_key c) o data)) (required c ++ optional c)).
+Proof.
+  intros Hp Hd Hk Hr. unfold generic_structure. rewrite Hp, Hd.
+  rewrite akeys_aset_mem by (unfold amem; rewrite Hp; reflexivity). rewrite Hk. cbn [andb].
+  assert (R : forallb (fun k => amem k (aset (payload_key c) o data)) (required c) = true).
+  { rewrite forallb_forall in *. intros k Hin. rewrite amem_aset, (Hr k Hin). reflexivity. }
+  rewrite R. reflexivity.
+Qed.
+
+Section GenericWire.
+  Variable obj : Type.
+  Variable structure : list N -> pval -> sres obj.
+  Variable reg : list mrow.
+
+  (* A request / notification for a method that is not in the registry, made of the members
+     JSON-RPC names: the handler is given _dict_to_object(params) - so, by (iii), every
+     identifier-named path of the wire params is reachable by name in what it holds. *)
+  Theorem generic_handler_gets_object st kvs data m pv o :
+    nested_jsonrpc (JObj kvs) = false ->
+    embed (JObj kvs) = PDict data ->
+    aget k_jsonrpc data = Some (PStr s_version) -> amem k_error data = false ->
+    aget k_method data = Some (PStr m) -> find_method reg m = None ->
+    aget k_params data = Some pv -> dict_to_object pv = SOk o ->
+    forallb (fun k => mem_str k [k_id; k_method; k_jsonrpc; k_params]) (akeys data) = true ->
+    receive obj structure reg st (JObj kvs) =
+      (st, match aget k_id data with
+           | Some i => ORequest i (MGeneric GRequest
+                         [(k_id, i); (k_method, PStr m); (k_jsonrpc, PStr s_version); (k_params, o)])
+           | None => ONotification (MGeneric GNotification
+                         [(k_method, PStr m); (k_jsonrpc, PStr s_version); (k_params, o)])
+           end).
+  Proof.
+    intros Hn He Hv Herr Hm Hf Hp Hd Hk. unfold receive. rewrite (members_embed obj structure reg st kvs Hn).
+    cbn [embed] in He. inversion He as [Hdat]. rewrite Hdat.
+    unfold structure_message.
+    assert (Hj : amem k_jsonrpc data = true) by (unfold amem; rewrite Hv; reflexivity).
+    assert (Hmm : amem k_method data = true) by (unfold amem; rewrite Hm; reflexivity).
+    rewrite Hj. cbn [negb]. rewrite Herr, Hm.
+    destruct (aget k_id data) as [i|] eqn:Ei.
+    - unfold message_type_for. rewrite Hf. unfold run_structure.
+      rewrite (generic_structure_ok GRequest data pv o Hp Hd).
+      + cbn [required optional app map payload_key]. unfold field_or_null.
+        rewrite aget_aset_eq.
+        rewrite !aget_aset_neq by reflexivity. rewrite Ei, Hm, Hv.
+        unfold handle_message. cbn [aget]. 
+        change (str_eqb k_jsonrpc k_id) with false. change (str_eqb k_jsonrpc k_method) with false.
+        change (str_eqb k_jsonrpc k_jsonrpc) with true. cbn iota.
+        rewrite str_eqb_refl. cbn [negb]. rewrite Ei. reflexivity.
+      + exact Hk.
+      + cbn [required forallb]. unfold amem at 1. rewrite Ei, Hmm, Hj. reflexivity.
+    - unfold message_type_for. rewrite Hf. unfold run_structure.
+      assert (Hk' : forallb (fun k => mem_str k (required GNotification ++ optional GNotification))
+                            (akeys data) = true).
+      { rewrite forallb_forall in *. intros k Hin. specialize (Hk k Hin).
+        cbn [required optional app mem_str] in *.
+        destruct (str_eqb k k_id) eqn:E; [|exact Hk].
+        apply str_eqb_eq in E. subst k. exfalso.
+        unfold akeys in Hin. apply in_map_iff in Hin as ([k' v'] & E' & Hin). cbn [fst] in E'. subst k'.
+        assert (aget k_id data <> None).
+        { clear - Hin. induction data as [|[k2 v2] l IH]; [contradiction|]. cbn [aget].
+          destruct (str_eqb k_id k2) eqn:E2; [discriminate|].
+          destruct Hin as [E|Hin]; [inversion E; subst; rewrite str_eqb_refl in E2; discriminate|].
+          apply IH. exact Hin. }
+        congruence. }
+      rewrite (generic_structure_ok GNotification data pv o Hp Hd Hk').
+      + cbn [required optional app map payload_key]. unfold field_or_null.
+        rewrite aget_aset_eq.
+        rewrite !aget_aset_neq by reflexivity. rewrite Hm, Hv.
+        unfold handle_message. cbn [aget].
+        change (str_eqb k_jsonrpc k_method) with false.
+        change (str_eqb k_jsonrpc k_jsonrpc) with true. cbn iota.
+        rewrite str_eqb_refl. cbn [negb]. rewrite Ei. reflexivity.
+      + cbn [required forallb]. rewrite Hmm, Hj. reflexivity.
+  Qed.
+End GenericWire.
